@@ -68,25 +68,33 @@ CHECKS = {
     },
     "C02": {
         "engine": "sched",
-        "text": ("walk_eq_need (assumed time = required time, chained delays add up), select_least and the exact "
-                 "tie-break are part of the model whose update sequence is diffed against real runs; the oracle "
-                 "checks on the implementation trace that every update is of a least-advanced component or of one "
-                 "upstream of it along dependencies that actually lag w.r.t. the observed requests."),
+        "text": ("Lean theorems: select_least (the component handed to _update_recursive is a time component of minimal "
+                 "time, the first such in the listing), updateRec_chain (whatever is updated is reached from it along a "
+                 "chain of recorded dependencies each of which lags or leads through a pull-based component), "
+                 "findDeps_mem_link (every recorded dependency is a non-static link whose requirement, delays "
+                 "accumulated, is the recorded time), walk_eq_need (assumed time = required time), with C04's "
+                 "lagging_never_updated and C01's need_necessary for 'no further than a dependant requires'. Tied to "
+                 "schedule.py by the update-sequence correspondence (exact tie-break included) and an oracle on the "
+                 "implementation trace: every update is of a least-advanced component or of one upstream of it along "
+                 "dependencies that lag w.r.t. the observed requests."),
         "design_ref": "5/C02",
-        "technique": "Lean 4 proof (induction over adapter chains and the dependency walk) + model/implementation correspondence",
+        "technique": "Lean 4 proof (induction over the listing scan, mutual induction over the dependency walk, induction over adapter chains) + model/implementation correspondence",
     },
     "C03": {
         "engine": "sched",
-        "text": ("Lean theorems: the dependency walk never runs out of fuel (#components + 1), the run loop ends only "
-                 "when no time component is running (final_times), it continues exactly while something is running, "
-                 "an update moves exactly the updated component strictly forward, the call order issued by Composition "
-                 "projects to initialize connect+ validate update* finalize per component and passes every status "
-                 "check ending FINALIZED, adapters collected into a set are finalized exactly once. Partial: the bound "
-                 "on the number of updates (termination of the outer loop) is validated by the correspondence and the "
-                 "oracle, not yet proved. Tied to schedule.py / sdk/component.py by the update-sequence correspondence "
-                 "and a life-cycle oracle on real runs."),
+        "text": ("Lean theorems: run_terminates (for every composition - cycles, pull-based components, all adapters - with "
+                 "positive bounded steps and non-negative delays the run loop performs at most "
+                 "sum_c max(0, end + (#components+2)*maxstep - time_c) updates: whatever the driver updates lies on a chain "
+                 "of fewer than #components+1 lagging dependencies from a component behind the end time, so it is below "
+                 "that bound, and each update lowers the potential), run_terminates_idle (nothing behind the end time: "
+                 "exactly one update), updateRec_fuel_enough (the dependency walk never runs out of fuel), final_times "
+                 "(the loop ends only when no time component is running), update_time_strict_mono, lifecycle_order / "
+                 "lifecycle_ends_finalized (the call order projects to initialize connect+ validate update* finalize per "
+                 "component and passes every status check), adapters_finalized_once. Tied to schedule.py / "
+                 "sdk/component.py by the update-sequence correspondence and a life-cycle oracle on real runs (incl. "
+                 "adapters that fan out to several inputs)."),
         "design_ref": "5/C03",
-        "technique": "Lean 4 proof (induction over the run loop; finite status automaton) + model/implementation correspondence",
+        "technique": "Lean 4 proof (potential function over the run loop, bounded chain length, finite status automaton) + model/implementation correspondence",
     },
     "C04": {
         "engine": "sched",
